@@ -175,11 +175,11 @@ func runC10(c *Ctx) {
 				switch {
 				case raw == "p1.ContiguousFailures":
 					return "failures"
-				case raw == "p0.probe.FailureThreshold":
+				case raw == "p0."+p.Field("health", "Prober", "probe").Name()+".FailureThreshold":
 					return "threshold"
 				case raw == "p1.Status":
 					return "status"
-				case strings.Contains(raw, "atomic.Bool).Load(") && strings.Contains(raw, "p0.stopped"):
+				case strings.Contains(raw, "atomic.Bool).Load(") && strings.Contains(raw, "p0."+p.Field("health", "Prober", "stopped").Name()):
 					return "stopped"
 				}
 				return ""
@@ -426,9 +426,13 @@ func (s *Sel) checkProberLifecycle(c *Ctx, ruleID string) {
 	c.Check(okStop, rule, "stop-sets-flag", FirstPos(p, stopFn), "the stopped flag is set whenever a checker exists", "Prober.Stop can return without setting the stopped flag (e.g. when hc.Stop() reports 'not running' during the initial delay): the sleeping Start goroutine then starts probing a stopped process and later reports it Ready")
 	// Start: after the Sleep, the flag is read before hc.Start
 	var body *ssa.Function = startFn
-	for _, an := range startFn.AnonFuncs {
-		body = an
-	}
+	AllInstrs(startFn, func(in ssa.Instruction) {
+		if g, ok := in.(*ssa.Go); ok {
+			if fns, _ := p.Callees(&g.Call, false); len(fns) == 1 && len(fns[0].Blocks) > 0 {
+				body = fns[0]
+			}
+		}
+	})
 	var sleeps, hcStarts []ssa.Instruction
 	AllInstrs(body, func(in ssa.Instruction) {
 		call, ok := in.(*ssa.Call)
@@ -485,7 +489,17 @@ func (s *Sel) checkStatusStoreCallsHook(c *Ctx, ruleID string) {
 		if !s.IsProcessMethod(f) || f.Parent() != nil || f.Signature.Params().Len() != 1 {
 			continue
 		}
-		if len(DirectSites(f, StoreTo("Health", s.FHealth))) > 0 && len(DirectSites(f, StoreTo("Status", s.FStatus))) == 0 {
+		// ... and the value it stores is the "unknown" health (the reset), decided by its parameter
+		resets := false
+		unknown, _ := constString(p.Const("types", "ProcessHealthUnknown"))
+		for _, in := range DirectSites(f, StoreTo("Health", s.FHealth)) {
+			if v, ok := StoredValue(in, s.FHealth); ok {
+				if sv, isC := ConstString(v); isC && sv == unknown {
+					resets = true
+				}
+			}
+		}
+		if resets && len(DirectSites(f, StoreTo("Status", s.FStatus))) == 0 {
 			if b, ok := f.Signature.Params().At(0).Type().Underlying().(*types.Basic); ok && b.Info()&types.IsString != 0 {
 				hooks = append(hooks, f)
 			}
